@@ -224,7 +224,7 @@ def judge_roundtrip(model, acc, wk):
         if f2.read() != f3.read():
             acc.violation('C13/not-a-fixpoint', 'file written from the re-read WBS is not reproduced by a further read/write cycle', model)
     # layout of the first file, parsed independently
-    with open(p1, 'r', encoding='utf-8', newline='') as f:
+    with open(p1, 'r', encoding='utf-8-sig', newline='') as f:     # a byte-order mark in front of the header is not excluded by C13
         rows = list(csv.reader(f, delimiter=';'))
     acc.ev()
     if not rows or rows[0][:10] != DEFAULT:
